@@ -20,11 +20,11 @@ import (
 
 func init() {
 	register("C03",
-		"HSK-ORDER: the pattern tables XXPattern/KKPattern (read from the typed AST) are exactly the Noise patterns -> me / <- e,ee,s,es / -> s,se and, with both static keys as pre-messages, -> e,es,ss / <- e,ee,se, with ascending act numbers and alternating roles starting with the initiator; DoHandshake processes Pattern[i] for i = 0,1,2,.. in order, returns at the first error of an act, and calls split (the only function that keys the transport ciphers) only after the last act - so no side holds session keys after a failed act and the responder writes act 2 (the only act that carries the auth payload) only after act 1 was read; readMsgPattern cannot return nil without a successful DecryptAndHash (MAC check), for every act, version and payload size including the empty act-1 payload. HSK-ERR: no error of a handshake step (reader, key parsing, ECDH, decryption, key generation, token/pattern processing) is dropped, and every caller of DoHandshake (gRPC client/server handshake, Dial, the TCP listener) tests its error and leaves on the failing leg. HSK-SIB: writeTokens and readTokens handle every Token constant; their ee/es/se/ss cases are structurally identical (both sides derive the same keys); in the me case the unmasked ephemeral enters the transcript hash and only the masked point is written, the reader unmasks with the same passphraseEntropy and hashes the unmasked point; every pre-message mixes the local or remote static key and a missing remote key is an error; the pairing secret is used whole (stretchPassphrase hands its unmodified parameter to scrypt as password and salt, ekeMask/ekeUnmask turn the whole stretched value into the scalar, NewBrontideMachine stretches exactly ConnData.PassphraseEntropy()). SYM-1..4: the symmetric-state primitives all of this rests on have the Noise shape: mixHash folds the old digest and the whole input into the new digest, EncryptAndHash/DecryptAndHash authenticate under the running digest and hash the same ciphertext on both sides (the reader only after a successful tag check), mixKey ratchets the chaining key by HKDF over the whole DH output and re-keys the cipher, InitializeSymmetric starts digest and chaining key from SHA-256(protocol name). HSK-SIB pattern source: every place that configures a handshake machine takes the pattern from the HandshakePattern() of the connection data it hands to the machine, and ConnData.HandshakePattern returns XX exactly while no remote key is stored (a paired responder cannot be made to run the passphrase-only pattern again). HSK-SIB also: the bytes of the pairing secret are never written (no element store, copy or clear into a secret-holding slice) and stretchPassphrase returns the output of a scrypt.Key call of the same invocation without retaining its parameter. Not decided: the PAKE security argument; 'for all passphrase pairs' (cryptographic).",
+		"HSK-ORDER: the pattern tables XXPattern/KKPattern (read from the typed AST) are exactly the Noise patterns -> me / <- e,ee,s,es / -> s,se and, with both static keys as pre-messages, -> e,es,ss / <- e,ee,se, with ascending act numbers and alternating roles starting with the initiator; DoHandshake processes Pattern[i] for i = 0,1,2,.. in order, returns at the first error of an act, and calls split (the only function that keys the transport ciphers) only after the last act - so no side holds session keys after a failed act and the responder writes act 2 (the only act that carries the auth payload) only after act 1 was read; readMsgPattern cannot return nil without a successful DecryptAndHash (MAC check), for every act, version and payload size including the empty act-1 payload. HSK-ERR: no error of a handshake step (reader, key parsing, ECDH, decryption, key generation, token/pattern processing) is dropped, and every caller of DoHandshake (gRPC client/server handshake, Dial, the TCP listener) tests its error and leaves on the failing leg. HSK-SIB: writeTokens and readTokens handle every Token constant; their ee/es/se/ss cases are structurally identical (both sides derive the same keys); in the me case the unmasked ephemeral enters the transcript hash and only the masked point is written, the reader unmasks with the same passphraseEntropy and hashes the unmasked point; every pre-message mixes the local or remote static key and a missing remote key is an error; the pairing secret is used whole (stretchPassphrase hands its unmodified parameter to scrypt as password and salt, ekeMask/ekeUnmask turn the whole stretched value into the scalar, NewBrontideMachine stretches exactly ConnData.PassphraseEntropy()). SYM-1..4: the symmetric-state primitives all of this rests on have the Noise shape: mixHash folds the old digest and the whole input into the new digest, EncryptAndHash/DecryptAndHash authenticate under the running digest and hash the same ciphertext on both sides (the reader only after a successful tag check), mixKey ratchets the chaining key by HKDF over the whole DH output and re-keys the cipher, InitializeSymmetric starts digest and chaining key from SHA-256(protocol name). HSK-SIB pattern source: every place that configures a handshake machine takes the pattern from the HandshakePattern() of the connection data it hands to the machine, and ConnData.HandshakePattern returns XX exactly while no remote key is stored (a paired responder cannot be made to run the passphrase-only pattern again). HSK-SIB also: the bytes of the pairing secret are never written (no element store, copy or clear into a secret-holding slice) and stretchPassphrase returns the output of a scrypt.Key call of the same invocation without retaining its parameter. HSK-ERR also: both handshake entry points of NoiseGrpcConn install the new Machine before DoHandshake runs and run it on that Machine (a rejected handshake leaves no keys of the previous session behind). Not decided: the PAKE security argument; 'for all passphrase pairs' (cryptographic).",
 		[]string{"ECDH is commutative; SHA-256/ChaCha20-Poly1305 are secure; a MAC over a transcript that includes the unmasked ephemeral fails unless both sides used the same passphrase"},
 		runC03)
 	register("C04",
-		"SYM-1..4 (as C03): mixHash, EncryptAndHash, DecryptAndHash, mixKey and InitializeSymmetric have the Noise shape. HSK-BIND: every buffer filled from the handshake reader is, on every path to a successful return, fed (directly, through ParsePubKey/ekeUnmask/a stored key, or as ciphertext) into mixHash or DecryptAndHash, and every value written to the act buffer is an EncryptAndHash result or shares its origin with a dominating mixHash argument - so any modified handshake byte changes the transcript and fails a MAC. The cleartext version byte is the exception (known finding: it is bound nowhere, a MITM can give the two sides different versions). HSK-VER: the relay-controlled version is used, besides comparisons and error messages, only under min <= version <= max (acts 1,2) with the store to h.version additionally under 'initiator', or under version == h.version (act 3); an unknown version ends in an error; for the two-act KK pattern (no re-check by the responder) the minimum and maximum version handed to the handshake state are forced to >= 2 on every path. TRUNC: every narrowing conversion of the auth-payload length is dominated by a bound that makes it exact, the v0 bound is the fixed payload size minus the length prefix, and the v0 reader fills the announced length with io.ReadFull. PUBLISH: SetRemote is called iff version >= HandshakeVersion2 (with nothing that can fail between split and that call) and SetAuthData iff initiator, both after split, with the handshake state's remoteStatic / receivedPayload, both error-checked. PUBLISH also: ConnData.SetRemote and SetAuthData store their argument on every successful return and on no failing one. HSK-VER also: NoiseGrpcConn hands its configured min/max handshake version to every machine it builds and the two options store into the field of their name. SYM-2/3 also: nil destination for Encrypt/Decrypt. PUBLISH also: the act payload encrypted is nil, payloadToSend or a buffer of this call; the reader unframes the v0 payload by its 2-byte length with a checked ReadFull and keeps the whole act-2 plaintext for v1+; the writer prefixes are len(payloadToSend). PUBLISH also: an error value that a later assignment can replace before it is tested counts as dropped (SetRemote's error overwritten by SetAuthData's). PUBLISH also: every successful GetRequestMetadata decodes ConnData.AuthData() read in that invocation into a map made in that invocation (no remembered metadata). Not decided: 'every single-bit flip aborts' (cryptographic); complementary keys (KEYSEP, C02).",
+		"SYM-1..4 (as C03): mixHash, EncryptAndHash, DecryptAndHash, mixKey and InitializeSymmetric have the Noise shape. HSK-BIND: every buffer filled from the handshake reader is, on every path to a successful return, fed (directly, through ParsePubKey/ekeUnmask/a stored key, or as ciphertext) into mixHash or DecryptAndHash, and every value written to the act buffer is an EncryptAndHash result or shares its origin with a dominating mixHash argument - so any modified handshake byte changes the transcript and fails a MAC. The cleartext version byte is the exception (known finding: it is bound nowhere, a MITM can give the two sides different versions). HSK-VER: the relay-controlled version is used, besides comparisons and error messages, only under min <= version <= max (acts 1,2) with the store to h.version additionally under 'initiator', or under version == h.version (act 3); an unknown version ends in an error; for the two-act KK pattern (no re-check by the responder) the minimum and maximum version handed to the handshake state are forced to >= 2 on every path. TRUNC: every narrowing conversion of the auth-payload length is dominated by a bound that makes it exact, the v0 bound is the fixed payload size minus the length prefix, and the v0 reader fills the announced length with io.ReadFull. PUBLISH: SetRemote is called iff version >= HandshakeVersion2 (with nothing that can fail between split and that call) and SetAuthData iff initiator, both after split, with the handshake state's remoteStatic / receivedPayload, both error-checked. PUBLISH also: ConnData.SetRemote and SetAuthData store their argument on every successful return and on no failing one. HSK-VER also: NoiseGrpcConn hands its configured min/max handshake version to every machine it builds and the two options store into the field of their name. SYM-2/3 also: nil destination for Encrypt/Decrypt. PUBLISH also: the act payload encrypted is nil, payloadToSend or a buffer of this call; the reader unframes the v0 payload by its 2-byte length with a checked ReadFull and keeps the whole act-2 plaintext for v1+; the writer prefixes are len(payloadToSend). PUBLISH also: an error value that a later assignment can replace before it is tested counts as dropped (SetRemote's error overwritten by SetAuthData's). PUBLISH also: every successful GetRequestMetadata decodes ConnData.AuthData() read in that invocation into a map made in that invocation (no remembered metadata). PUBLISH also: every access to a ConnData field that is written after construction is under ConnData.mu (exclusive for writes), and no application callback stored in ConnData is invoked while mu may be held. Not decided: 'every single-bit flip aborts' (cryptographic); complementary keys (KEYSEP, C02).",
 		[]string{"SHA-256 is collision resistant; the AEAD authenticates its associated data (the transcript hash)"},
 		runC04)
 }
